@@ -466,6 +466,51 @@ fn interleaved_pages(rng: &mut Rng, rep: &mut Report) {
     }
 }
 
+/// Pages laid over ANOTHER page's bytes: a w x (8k - r) page over the bytes of a fully lit w x 8k page has its spare rows
+/// lit. Exactly as many real pixels as there are lit spare bits are cleared, then everything is filled (and the other way
+/// round over a dark page with spare bits... there are none, so: over a page whose spare bits alone are lit): set-all
+/// makes every pixel read the value, whatever the bits outside the page say.
+fn pages_over_other_pages_bytes(rng: &mut Rng, rep: &mut Report) {
+    for (w, h) in [(1u32, 7u32), (8, 7), (5, 3), (90, 7), (30, 10), (40, 12), (23, 10), (3, 1), (16, 15), (2, 9)] {
+        let cb = refs::col_bytes(h);
+        let spare_per_col = (cb * 8) as u32 - h;
+        for variant in 0..4usize {
+            // 0: all bytes FF (spare bits lit, all pixels lit); 1: only the spare bits lit; 2: FF, borrowed vs 3: owned copy
+            let mut backing = vec![0xFFu8; refs::padded_len(w, h)];
+            backing[0] = 7;
+            if variant == 1 {
+                for x in 0..w as usize {
+                    for b in 0..cb {
+                        let lo = (b * 8) as u32;
+                        let mask: u8 = (0..8u32).filter(|k| lo + k >= h).fold(0u8, |m, k| m | (1 << k));
+                        backing[4 + x * cb + b] = mask;
+                    }
+                }
+            }
+            let Ok(Some(mut m)) = Mon::borrowed_or_skip(w, h, &backing, rep) else { continue };
+            rep.case(Some(mix(u64::from(w) << 32 | u64::from(h), 0xA11A5 + variant as u64)));
+            let n_spare = (spare_per_col * w) as usize;
+            // clear (variant 0, 2, 3) or light (variant 1) exactly n_spare distinct real pixels, then fill with the opposite
+            let mut picked: Vec<(u32, u32)> = vec![];
+            while picked.len() < n_spare.min((w * h) as usize) {
+                let p = (rng.below(u64::from(w)) as u32, rng.below(u64::from(h)) as u32);
+                if !picked.contains(&p) {
+                    picked.push(p);
+                }
+            }
+            let lit_first = variant != 1;
+            for (x, y) in &picked {
+                m.apply(&Op::Set(*x, *y, !lit_first), rep);
+            }
+            m.apply(&Op::Fill(lit_first), rep);
+            m.compare(rep, false);
+            m.apply(&Op::Fill(!lit_first), rep);
+            m.compare(rep, false);
+            rep.count("pages_laid_over_another_pages_bytes");
+        }
+    }
+}
+
 fn random_sequence(rng: &mut Rng, rep: &mut Report, max_ops: usize) {
     let n_ops = 1 + rng.usize(max_ops);
     sequence_of_length(rng, rep, n_ops)
@@ -661,6 +706,7 @@ pub fn run(ctx: &Ctx) -> Outcome {
         let mut at_exit = Report::new();
         crate::exitprobe::check("page", MON, &mut at_exit);
         gigantic_pages(&mut ctx.rng("gigantic", 0), &mut at_exit);
+        pages_over_other_pages_bytes(&mut ctx.rng("aliased", 0), &mut at_exit);
         crate::exitprobe::check_migration("page", MON, &mut at_exit);
         report.merge(at_exit);
     }
@@ -669,6 +715,7 @@ pub fn run(ctx: &Ctx) -> Outcome {
         floor("pages whose dot count passes 2^32 (65537x65536, 65536x65537, (2^28+1)x16, ...), owned and borrowed, probed at the corners, past the 2^32-dot mark and at random", report.get("gigantic_pages_probed") == 24, report.get("gigantic_pages_probed")),
         floor("out-of-bounds accesses made from a destructor while another panic unwinds (every size of the box)", report.get("oob_accesses_made_while_a_panic_unwinds") > 10_000 && report.get("oob_while_unwinding_not_reached") == 0, report.get("oob_accesses_made_while_a_panic_unwinds")),
         floor("the same coordinate written and read on pages of different strides one after the other", report.get("same_coordinate_on_one_page_after_another") > 500, report.get("same_coordinate_on_one_page_after_another")),
+        floor("pages laid over a fully lit (or spare-bits-only) buffer, as many real pixels changed as spare bits are lit, then filled", report.get("pages_laid_over_another_pages_bytes") == 40, report.get("pages_laid_over_another_pages_bytes")),
         floor("every size of the box explored", report.get("box_sizes_done") == box_n as u64, report.get("box_sizes_done")),
         floor("tall and wide pages explored pixel by pixel", report.get("tall_and_wide_sizes_done") == n_tall as u64, report.get("tall_and_wide_sizes_done")),
         floor("all 11 real sizes explored", report.get("real_sizes_done") == 11, report.get("real_sizes_done")),
